@@ -24,6 +24,10 @@ def build(tier):
         pre.append("not latin or ci == 0")  # latin-1 only with the first code (the codec does not depend on the code)
         src += hgen.cond(name, params, pre, f"L.roundtrip(ci, lst, latin, n, {i0}, i1, i2)", sig="hb.KEY")
         conds += [Cond(name, "prop", T, group="roundtrip"), Cond(name + "__twin", "twin", 40, group="roundtrip")]
+    src += hgen.cond("roundtrip_utf8", "lst: bool, n: int, k0: int, w0: int, k1: int, w1: int, tail: bool",
+                     ["2 <= n <= 3", "0 <= k0 <= 3 and 1 <= w0 <= 4 and 0 <= k1 <= 3 and 1 <= w1 <= 4", "n == 3 or (k0 == 0 and w0 == 1)"] + (["not tail"] if q else []),
+                     "L.roundtrip_utf8(lst, n, k0, w0, k1, w1, tail)", sig="hb.KEY")
+    conds += [Cond("roundtrip_utf8", "prop", T, group="roundtrip"), Cond("roundtrip_utf8__twin", "twin", 40, group="roundtrip")]
     n = 2 if q else 3
     src += hgen.cond("roundtrip_free", "lst: bool, l0: str, l1: str",
                      [f"len(l0) <= {n} and len(l1) <= {n}", "'\\r' not in l0 + l1 and '\\n' not in l0 + l1", "l0 == l0.rstrip() and l1 == l1.rstrip()"],
@@ -60,6 +64,8 @@ def build(tier):
                            aioftp.StreamIO.readline],
         bounds={
             "round trip": f"code in {L.CODES[:nc]}; 1..3 lines, each from the {nlq}-entry line universe {L.LINES[:nlq]} (Mode A at line level, exhaustive); single-line / multi-line / listing style; utf-8 and latin-1; a sentinel reply follows (desynchronisation check)",
+            "byte boundaries": "listing-style and multi-line replies of 2..3 lines whose body and final lines are k ASCII characters (k = 0..3) followed by a character 1..4 bytes wide in UTF-8 (a, e-acute, CJK, emoji)"
+                               + ("" if q else ", with and without an ASCII tail") + ": every alignment of a multi-byte character against the 3-byte code / separator boundary; sentinel reply follows",
             "free lines": f"Mode S search only: two free Unicode lines of length <= {n}",
             "mismatch": "final line with a different code from the code universe, 1..2 lines before it (rejected AND the sentinel still decodes); a middle line (position 1..3 of 3..5 lines, as continuation or as terminating line) with a different code: rejected",
             "Code.matches": f"code = any three ASCII digits (symbolic string), mask = any ASCII string of length <= {3 if q else 4} (symbolic)",
